@@ -56,6 +56,12 @@ type Config struct {
 	// loads the current user into the request context (as the sample
 	// application's data injector does)
 	AppLoadsUser bool `json:"app_loads_user,omitempty"`
+	// SetupBeforeInit: the application calls the Setup() functions of totp2fa,
+	// sms2fa, recovery codes and expire before Authboss.Init instead of after
+	SetupBeforeInit bool `json:"setup_before_init,omitempty"`
+	// AppAuthHook: the application registers an After(EventAuth) handler that
+	// answers every completed login itself
+	AppAuthHook bool `json:"app_auth_hook,omitempty"`
 	// AppLogoutHook: the application registers an After(EventLogout) handler
 	// that answers the request itself (a redirect to a single-sign-out page)
 	AppLogoutHook bool `json:"app_logout_hook,omitempty"`
@@ -220,6 +226,8 @@ func baseConfig(r *Rng) Config {
 	c.OAuth2ExtraParams = r.Bool()
 	c.AppLogoutHook = r.Chance(1, 4)
 	c.AppLoadsUser = r.Chance(1, 3)
+	c.SetupBeforeInit = r.Chance(1, 4)
+	c.AppAuthHook = r.Chance(1, 6)
 	if r.Chance(1, 3) {
 		c.DBZoneOffset = []int{3 * 3600, -5 * 3600, 5*3600 + 45*60, 14 * 3600, -11 * 3600}[r.Intn(5)]
 	}
